@@ -7,6 +7,7 @@
 import ast
 
 from ..astutil import U, assignments, calls, callee_name, const_str, own_walk
+from ..arrnf import ANF, C, base_of, contains, expect, key, match, show, walk
 from ..pathcond import parents, path_condition
 from ..source import AnalysisError
 
@@ -74,6 +75,71 @@ def polymorphic_columns(ix):
     return out
 
 
+MUTATORS = {"drop", "update", "pop", "append", "extend", "insert", "remove", "rename", "set_index", "reindex", "fillna",
+            "replace", "sort_index", "sort_values", "reset_index", "clear", "add", "discard", "setdefault", "drop_duplicates"}
+
+
+def _net_tbl(t):
+    """net[A] / net.A  ->  A (term) or None"""
+    if t[0] == "idx" and t[1][0] == "n" and len(t[2]) == 1:
+        return t[2][0]
+    if t[0] == "attr" and t[1][0] == "n":
+        return C(t[2])
+    return None
+
+
+def _reference_accesses(ix, f, r, mask_fn):
+    """scan all terms of a function summary for reads / writes of net[A][B] (or net[A].loc[rows, B]) with non-constant
+    A and B, and classify each as guarded by mask_fn(net, A, B) or not"""
+    found = {}
+
+    def M(net, A, B):
+        return ("call", ("f", mask_fn), (net, A, B), ())
+
+    def is_mask(x):
+        return x[0] == "call" and x[1] == ("f", mask_fn)
+
+    def scan(t, guards, where):
+        if not isinstance(t, tuple) or not t:
+            return
+        if not isinstance(t[0], str):
+            for x in t:
+                scan(x, guards, where)
+            return
+        if t[0] == "idx" and len(t[2]) == 1 and t[1][0] in ("idx", "attr") and _net_tbl(t[1]) is not None:
+            A, B = _net_tbl(t[1]), t[2][0]
+            if A[0] != "c" and B[0] not in ("c", "opn", "u", "cmp", "call", "idx", "slice", "list", "tuple"):
+                net = t[1][1]
+                found.setdefault((key(A), key(B)), []).append((key(M(net, A, B)) in guards, t, where))
+        if t[0] == "idx" and len(t[2]) == 2 and t[1][0] == "attr" and t[1][2] in ("loc", "at") and _net_tbl(t[1][1]) is not None:
+            A, B, rows = _net_tbl(t[1][1]), t[2][1], t[2][0]
+            if A[0] != "c" and B[0] not in ("c", "slice"):
+                net = t[1][1][1]
+                found.setdefault((key(A), key(B)), []).append((key(M(net, A, B)) in guards or contains(rows, M(net, A, B)), t, where))
+        g2 = guards
+        if t[0] == "opn" and t[1] == "&":
+            g2 = guards | {key(x) for x in t[2] if is_mask(x)}
+        elif t[0] == "opn" and t[1] == "|":
+            g2 = guards | {key(x[2]) for x in t[2] if x[0] == "u" and x[1] == "~" and is_mask(x[2])}
+        for x in t[1:]:
+            scan(x, g2, where)
+
+    for e in r.events:
+        if e.kind == "store":
+            # the target itself
+            tgt = ("idx", e.base, e.index)
+            scan(tgt, frozenset(), e.node)
+            scan(e.value, frozenset(), e.node)
+        elif e.kind == "call" and (e.fn[0] == "f" or (e.fn[0] == "attr" and e.fn[2] in MUTATORS)):
+            # sinks only: the result of a pure method call (isin, values ...) is scanned where it is used
+            scan(e.term, frozenset(), e.node)
+        elif e.kind in ("return", "raise"):
+            scan(e.value, frozenset(), e.node)
+        for c, _ in e.cond:
+            scan(c, frozenset(), e.node)
+    return found
+
+
 def r17_1(run):
     ix = run.index
     poly = polymorphic_columns(ix)
@@ -81,121 +147,184 @@ def r17_1(run):
            "polymorphic reference columns derived from the create functions: %s" % poly, CR)
     if not poly:
         return
-    dcol, jval, _ = poly.get(("valve", "element"), ("et", "ju", {}))
+    dcol, jval, tbls = poly.get(("valve", "element"), ("et", "ju", {}))
+    pval = [v for v, t in tbls.items() if t == "pipe"]
     mi = ix.module(TB)
-    # discriminator helpers: functions that compare the discriminator column with the junction value for that table/column
+    # discriminator helper: a function (net, table, column) whose result for (valve, element) is `et == 'ju'` of the rows
     helpers = []
     for f in mi.functions.values():
-        src = U(f.node).replace('"', "'")
-        if "'%s'" % dcol in src and "== '%s'" % jval in src and "'element'" in src and "'valve'" in src and "column" in f.params():
-            helpers.append(f.name)
-    run.ob("discriminator-helper", len(helpers) >= 1,
-           "a helper yields the rows in which a listed column really refers to a junction (tests %s == %r): %s" % (dcol, jval, helpers), TB)
-    consumers = [f for f in mi.functions.values() if any(callee_name(c) == "element_junction_tuples" for c in calls(f.node))
-                 and f.name not in ("pp_elements",)]
+        ps = f.params()
+        if len(ps) != 3:
+            continue
+        try:
+            r = ANF(ix, f, consts={ps[1]: "valve", ps[2]: "element"}, param_alias={ps[0]: "net"}).run()
+        except AnalysisError:
+            continue
+        cmp_ = ("cmp", "==", C(jval), None)
+        for e in r.returns():
+            if any(x[0] == "cmp" and ((x[1] == "==" and C(jval) in (x[2], x[3])) or (x[1] == "!=" and pval and C(pval[0]) in (x[2], x[3])))
+                   and any(contains(y, C(dcol)) for y in (x[2], x[3])) for x in walk(e.value)):
+                helpers.append(f)
+    run.ob("discriminator-helper", len(helpers) == 1,
+           "one helper yields the rows in which a listed column really refers to a junction (tests %s == %r): %s"
+           % (dcol, jval, [h.name for h in helpers]), TB)
+    if len(helpers) != 1:
+        return
+    helper = helpers[0]
+    run.analysed(helper)
+    # for any other (table, column) the helper must not exclude rows
+    ps = helper.params()
+    r = ANF(ix, helper, consts={ps[1]: "sink", ps[2]: "junction"}, param_alias={ps[0]: "net"}).run()
+    rets = r.returns()
+    ok = len(rets) == 1 and rets[0].value[0] == "call" and rets[0].value[1] == ("x", "numpy.ones")
+    run.ob("discriminator-helper|all-rows-otherwise", ok, "for monomorphic columns the helper selects all rows", run.where(helper, helper.node),
+           detail=show(rets[0].value)[:120] if rets else None)
+    ejt = ix.func(TB + ".element_junction_tuples")
+    consumers = []
+    for f in mi.functions.values():
+        if f.name in ("pp_elements", "element_junction_tuples"):
+            continue
+        if any(callee_name(c) == "element_junction_tuples" for c in calls(f.node)):
+            consumers.append(f)
     run.ob("consumers-found", len(consumers) >= 4, "consumers of the reference map: %s" % [f.name for f in consumers], TB)
     for f in consumers:
         run.analysed(f)
-        # loop variables bound to (table, column) pairs of the map
-        pairs = []
-        for n in ast.walk(f.node):
-            if isinstance(n, (ast.For, ast.comprehension)) and isinstance(n.target, ast.Tuple) and len(n.target.elts) == 2 \
-                    and all(isinstance(e, ast.Name) for e in n.target.elts):
-                it = n.iter
-                src_names = {x.id for x in ast.walk(it) if isinstance(x, ast.Name)}
-                if callee_name(it) == "element_junction_tuples" if isinstance(it, ast.Call) else bool(src_names & {"comp_tuples"}):
-                    pairs.append((n.target.elts[0].id, n.target.elts[1].id, n))
-        # select_subnet regroups the tuples: comp_tbl / jr
-        for n in ast.walk(f.node):
-            if isinstance(n, ast.For) and isinstance(n.target, ast.Tuple) and U(n.iter).endswith(".items()") and "junc_rows" in U(n.target):
-                pairs.append((n.target.elts[0].id, "jr", n))
-        accesses = []
-        for tv, cv, loop in pairs:
-            body = loop.body if isinstance(loop, ast.For) else []
-            for st in body:
-                for n in ast.walk(st):
-                    if isinstance(n, ast.Subscript) and U(n.value) == "net[%s]" % tv and U(n.slice) == cv:
-                        accesses.append((st, n, tv, cv))
-                    elif isinstance(n, ast.Subscript) and isinstance(n.value, ast.Attribute) and n.value.attr == "loc" \
-                            and U(n.value.value) == "net[%s]" % tv and isinstance(n.slice, ast.Tuple) and U(n.slice.elts[1]) == cv:
-                        accesses.append((st, n, tv, cv))
-        run.ob("%s|accesses-found" % f.name, bool(accesses),
-               "%s reads/writes the listed reference columns (%d accesses)" % (f.name, len(accesses)), run.where(f, f.node))
-        # masks obtained from a helper with (net, table var, column var)
-        masks = set()
-        for n in ast.walk(f.node):
-            if isinstance(n, ast.Assign) and isinstance(n.value, ast.Call) and callee_name(n.value) in helpers and isinstance(n.targets[0], ast.Name):
-                masks.add(n.targets[0].id)
-        seen = set()
-        for st, n, tv, cv in accesses:
-            key = U(st).split("\n")[0][:70]
-            if key in seen:
-                continue
-            seen.add(key)
-            names = {x.id for x in ast.walk(st) if isinstance(x, ast.Name)}
-            helper_inline = any(callee_name(c) in helpers for c in calls(st))
-            derived = set()
-            for m in masks:
-                derived.add(m)
-            # names derived from the mask inside the function (rows = index[mask], at_junctions = ... & mask)
-            changed = True
-            while changed:
-                changed = False
-                for a in ast.walk(f.node):
-                    if isinstance(a, ast.Assign) and isinstance(a.targets[0], ast.Name) and a.targets[0].id not in derived:
-                        if {x.id for x in ast.walk(a.value) if isinstance(x, ast.Name)} & derived or any(callee_name(c) in helpers for c in calls(a.value)):
-                            derived.add(a.targets[0].id)
-                            changed = True
-            ok = helper_inline or bool(names & derived)
-            run.ob("%s|guarded|%s" % (f.name, key), ok,
-                   "the access to net[%s][%s] is restricted to rows whose reference really is a junction" % (tv, cv), run.where(f, n))
+        r = ANF(ix, f).run()
+        found = _reference_accesses(ix, f, r, helper.qualname)
+        run.ob("%s|accesses-found" % f.name, bool(found),
+               "%s reads/writes the listed reference columns (%d distinct accesses)" % (f.name, len(found)), run.where(f, f.node))
+        n = 0
+        for (ka, kb), occ in sorted(found.items()):
+            bad = [o for o in occ if not o[0]]
+            forms = sorted({show(o[1])[:70] for o in occ})
+            for form in forms:
+                these = [o for o in occ if show(o[1])[:70] == form]
+                b_ = [o for o in these if not o[0]]
+                run.ob("%s|guarded|%s" % (f.name, form), not b_,
+                       "every use of %s is restricted to the rows in which the column really holds a junction "
+                       "(combined with %s(net, table, column))" % (form, helper.name), run.where(f, (b_ or these)[0][2]))
     # the pipe branch of reindex_elements
     f = ix.func(TB + ".reindex_elements")
-    src = U(f.node).replace('"', "'")
-    ok = "net['valve']['et'] == 'pi'" in src and "get_indices(pipe_valves, lookup)" in src
-    run.ob("reindex_elements|pipe-valves-follow-pipes", ok,
-           "reindexing pipes rewrites valve.element for valves attached to pipes", run.where(f, f.node))
+    ps = f.params()
+    r = ANF(ix, f, consts={ps[1]: "pipe"}, param_alias={ps[0]: "net", ps[2]: "lookup"}).run()
+    pv = expect(ix, f, "net['valve'].loc[net['valve'][%r] == %r, 'element']" % (dcol, pval[0] if pval else "pi"))
+    good = []
+    for s_ in r.stores():
+        if s_.base == ("attr", expect(ix, f, "net['valve']"), "loc") and len(s_.index) == 2 and s_.index[1] == C("element"):
+            v = s_.value
+            if v[0] == "call" and v[1][0] in ("f", "x") and v[1][1].endswith("get_indices") and len(v[2]) >= 2 \
+                    and key(v[2][0]) == key(pv) and v[2][1] == ("n", "lookup") and contains(s_.index[0], pv):
+                good.append(s_)
+    run.ob("reindex_elements|pipe-valves-follow-pipes", len(good) >= 1,
+           "reindexing pipes rewrites valve.element (through the lookup) for exactly the valves attached to pipes", run.where(f, f.node))
     run.floor(10)
+
+
+def _drop_calls(r, tbl_term):
+    return [c for c in r.calls() if c.fn[0] == "attr" and c.fn[2] == "drop" and key(c.fn[1]) == key(tbl_term)]
 
 
 def r17_2(run):
     ix = run.index
+    poly = polymorphic_columns(ix)
+    dcol, jval, tbls = poly.get(("valve", "element"), ("et", "ju", {}))
+    pval = ([v for v, t in tbls.items() if t == "pipe"] or ["pi"])[0]
     f = ix.func(TB + ".drop_junctions")
     run.analysed(f)
-    src = U(f.node).replace('"', "'")
-    run.ob("drop_junctions|cascade", "drop_elements_at_junctions(net, junctions)" in src,
-           "drop_junctions cascades to the elements at the dropped junctions (unless drop_elements=False is requested)", run.where(f, f.node))
-    run.ob("drop_junctions|res-and-geodata", "net['junction_geodata'].drop(" in src and "net['res_junction'].drop(" in src,
-           "junction geodata and results are dropped with the junctions", run.where(f, f.node))
+    w = run.where(f, f.node)
+    ps = f.params()
+    _sh(len(ps) == 3, "drop_junctions(net, junctions, drop_elements)")
+    r = ANF(ix, f, param_alias=dict(zip(ps, ("net", "junctions", "drop_elements")))).run()
+    de = ix.func(TB + ".drop_elements_at_junctions")
+    cs = [c for c in r.calls() if c.fn == ("f", de.qualname)]
+    ok = len(cs) == 1 and cs[0].args[:2] == (("n", "net"), ("n", "junctions")) and not cs[0].kw \
+        and all(key(c) == key(("n", "drop_elements")) and p for c, p in cs[0].cond)
+    run.ob("drop_junctions|cascade", ok,
+           "drop_junctions cascades to all elements at the dropped junctions (unless drop_elements=False is requested)", w)
+    for tbl in ("junction", "junction_geodata", "res_junction"):
+        ds = _drop_calls(r, expect(ix, f, "net[%r]" % tbl))
+        run.ob("drop_junctions|drops|%s" % tbl, len(ds) >= 1 and all(contains(d.args[0], ("n", "junctions")) for d in ds if d.args),
+               "rows of %s are dropped with the junctions" % tbl, w)
     f = ix.func(TB + ".drop_pipes")
     run.analysed(f)
-    src = U(f.node).replace('"', "'")
-    ok = "net['valve']['et'] == 'pi'" in src and "net['valve']['element'].isin(pipes)" in src and "net['valve'].drop(" in src
-    run.ob("drop_pipes|cascade-to-pipe-valves", ok, "drop_pipes removes the valves attached to the dropped pipes", run.where(f, f.node))
-    run.ob("drop_pipes|res-and-geodata", "net['pipe_geodata'].drop(" in src and "net['res_pipe'].drop(" in src,
-           "pipe geodata and results are dropped with the pipes", run.where(f, f.node))
+    w = run.where(f, f.node)
+    ps = f.params()
+    r = ANF(ix, f, param_alias=dict(zip(ps, ("net", "pipes")))).run()
+    for tbl in ("pipe", "pipe_geodata", "res_pipe"):
+        ds = _drop_calls(r, expect(ix, f, "net[%r]" % tbl))
+        run.ob("drop_pipes|drops|%s" % tbl, len(ds) >= 1 and all(contains(d.args[0], ("n", "pipes")) for d in ds if d.args),
+               "rows of %s are dropped with the pipes" % tbl, w)
+    sel = expect(ix, f, "(net['valve'][%r] == %r) & net['valve']['element'].isin(pipes)" % (dcol, pval))
+    ds = _drop_calls(r, expect(ix, f, "net['valve']"))
+    ok = len(ds) >= 1 and all(d.args and contains(d.args[0], sel) for d in ds)
+    run.ob("drop_pipes|cascade-to-pipe-valves", ok, "drop_pipes removes exactly the valves attached to the dropped pipes", w,
+           detail="; ".join(show(d.args[0])[:150] for d in ds if d.args))
+    ds2 = _drop_calls(r, expect(ix, f, "net['res_valve']"))
+    run.ob("drop_pipes|res_valve-follows", len(ds2) >= 1 and all(d.args and contains(d.args[0], sel) for d in ds2),
+           "results of the dropped valves are dropped", w)
     f = ix.func(TB + ".drop_elements_at_junctions")
     run.analysed(f)
-    src = U(f.node).replace('"', "'")
-    run.ob("drop_elements_at_junctions|pipes-via-drop_pipes", "drop_pipes(net, eid)" in src and "element == 'pipe'" in src,
-           "pipes at dropped junctions are removed through drop_pipes (so their valves follow)", run.where(f, f.node))
-    run.ob("drop_elements_at_junctions|results-follow", "res_element = 'res_' + element" in src and "net[res_element].drop(" in src,
-           "result rows of dropped elements are dropped", run.where(f, f.node))
+    w = run.where(f, f.node)
+    r = ANF(ix, f, param_alias={f.params()[0]: "net", f.params()[1]: "junctions"}).run()
+    dp = ix.func(TB + ".drop_pipes")
+    cs = [c for c in r.calls() if c.fn == ("f", dp.qualname)]
+    ok = len(cs) == 1 and any(c[0] == "cmp" and c[1] == "==" and C("pipe") in (c[2], c[3]) and p for c, p in cs[0].cond)
+    run.ob("drop_elements_at_junctions|pipes-via-drop_pipes", ok,
+           "pipes at dropped junctions are removed through drop_pipes (so their valves follow)", w)
+    gen = [c for c in r.calls() if c.fn[0] == "attr" and c.fn[2] == "drop" and c.loops]
+    tabs = {key(c.fn[1]) for c in gen}
+    T = [x for c in gen for x in walk(c.fn[1]) if x[0] == "loop"]
+    ok = bool(T) and key(("idx", ("n", "net"), (T[0],))) in tabs and key(("idx", ("n", "net"), (("cat", (C("res_"), T[0])),))) in tabs
+    run.ob("drop_elements_at_junctions|results-follow", ok, "rows of the element table and of its result table are dropped", w,
+           detail=str(sorted(show(c.fn[1]) for c in gen)))
+    if cs and gen:
+        e0 = [c for c in gen if key(c.fn[1]) == key(("idx", ("n", "net"), (T[0],)))]
+        run.ob("drop_elements_at_junctions|same-rows", bool(e0) and key(e0[0].args[0]) == key(cs[0].args[1]),
+               "the same row selection is used for pipes and for all other elements", w)
     f = ix.func(TB + ".reindex_elements")
     run.analysed(f)
-    src = U(f.node).replace('"', "'")
-    ok = "geo_table = element + '_geodata'" in src and "net[geo_table].index = get_indices(" in src and "res_table = 'res_' + element" in src \
-        and "net[res_table].index = get_indices(" in src
-    run.ob("reindex_elements|res-and-geodata-follow", ok, "geodata and result tables are reindexed with the element table", run.where(f, f.node))
+    w = run.where(f, f.node)
+    ps = f.params()
+    r = ANF(ix, f, param_alias=dict(zip(ps, ("net", "element", "lookup")))).run()
+    for nm, tt in (("element", "net[element]"), ("geodata", "net[element + '_geodata']"), ("results", "net['res_' + element]")):
+        tbl = expect(ix, f, tt)
+        st = [s_ for s_ in r.stores() if key(base_of(s_.base)) == key(tbl) and s_.index == (C(".index"),)]
+        ok = len(st) == 1 and st[0].value[0] == "call" and st[0].value[1][1].endswith("get_indices") and len(st[0].value[2]) >= 2 \
+            and key(st[0].value[2][0]) == key(("attr", tbl, "index")) and st[0].value[2][1] == ("n", "lookup")
+        run.ob("reindex_elements|index-follows|%s" % nm, ok, "the index of the %s table is mapped through the lookup" % nm, w)
     f = ix.func(TB + ".fuse_junctions")
-    src = U(f.node).replace('"', "'")
-    run.ob("fuse_junctions|drops-fused", "drop_junctions(net, j2, drop_elements=False)" in src,
+    run.analysed(f)
+    r = ANF(ix, f).run()
+    dj = ix.func(TB + ".drop_junctions")
+    cs = [c for c in r.calls() if c.fn == ("f", dj.qualname)]
+    kw = dict(cs[0].kw) if cs else {}
+    de_arg = kw.get(dj.params()[2], cs[0].args[2] if cs and len(cs[0].args) > 2 else None)
+    run.ob("fuse_junctions|drops-fused", len(cs) == 1 and de_arg == C(False),
            "the fused junctions are dropped after their references were redirected (elements are kept)", run.where(f, f.node))
+    if cs:
+        red = [s_ for s_ in r.stores() if s_.loops and s_.base[0] == "attr" and s_.base[2] == "loc"]
+        run.ob("fuse_junctions|redirect-before-drop", bool(red) and all(s_.seq < cs[0].seq for s_ in red),
+               "references are redirected before the junctions are dropped", run.where(f, f.node))
     f = ix.func(TB + ".select_subnet")
-    src = U(f.node).replace('"', "'")
-    ok = "p2['valve']['et'] == 'pi'" in src and "isin(kept_pipes)" in src
+    run.analysed(f)
+    r = ANF(ix, f).run()
+    st = [s_ for s_ in r.stores() if s_.index == (C("valve"),) and not s_.loops]
+    ok = False
+    for s_ in st:
+        v = s_.value
+        if v[0] == "idx" and len(v[2]) == 1 and v[2][0][0] == "opn" and v[2][0][1] == "|":
+            items = v[2][0][2]
+            neg = [x for x in items if x[0] == "u" and x[1] == "~" and x[2][0] == "cmp" and C(pval) in (x[2][2], x[2][3])]
+            isin = [x for x in items if x[0] == "call" and x[1][0] == "attr" and x[1][2] == "isin" and contains(x[1][1], C("element"))
+                    and x[2] and contains(x[2][0], C("pipe"))]
+            ok = ok or (bool(neg) and bool(isin))
     run.ob("select_subnet|pipe-valves-with-their-pipe", ok, "a pipe valve is selected only together with its pipe", run.where(f, f.node))
     run.floor(9)
+
+
+def _sh(ok, what):
+    if not ok:
+        raise AnalysisError("unrecognised shape: " + what)
 
 
 def r17_3(run):
@@ -229,11 +358,31 @@ def r17_3(run):
     run.ob("special-junction-columns", special == extra,
            "the special junction columns of the map equal the schema's extra junction columns: %s" % sorted(extra), w,
            detail="map: %s" % sorted(special))
-    src = U(f.node)
-    run.ob("branch-columns-from-class", "comp.from_to_node_cols()" in src and "issubclass(comp, BranchComponent)" in src,
-           "branch reference columns are taken from each class's from_to_node_cols", w)
-    run.ob("node-element-column", "(elm, 'junction')" in src.replace('"', "'") and "issubclass(comp, NodeElementComponent)" in src,
-           "node elements reference their junction through the column `junction`", w)
+    ps = f.params()
+    _sh("net" in ps, "element_junction_tuples has a net parameter")
+    r = ANF(ix, f, consts={"net": None}).run()
+    ups = [c for c in r.calls() if c.fn[0] == "attr" and c.fn[2] == "update" and c.loops and c.args]
+
+    def filt(lid, clsname):
+        it = r.loops[lid]["iter"]
+        return any(x[0] == "call" and x[1] == ("x", "builtins.issubclass") and len(x[2]) == 2 and x[2][1][0] == "f"
+                   and x[2][1][1].endswith("." + clsname) for x in walk(it))
+    br_ok = nd_ok = False
+    for c in ups:
+        lid = c.loops[-1]
+        a0 = c.args[0]
+        items = a0[1] if a0[0] in ("list", "tuple", "set") else ()
+        T, F = ("loop", lid, 0), ("loop", lid, 1)
+        if len(items) == 2 and {key(i) for i in items} == {key(("tuple", (T, ("idx", F, (C(0),))))), key(("tuple", (T, ("idx", F, (C(1),)))))} \
+                and filt(lid, "BranchComponent") and any(x[0] == "call" and x[1][0] == "attr" and x[1][2] == "from_to_node_cols"
+                                                         for x in walk(r.loops[lid]["iter"])):
+            br_ok = True
+        if len(items) == 1 and key(items[0]) == key(("tuple", (T, C("junction")))) and filt(lid, "NodeElementComponent"):
+            nd_ok = True
+    run.ob("branch-columns-from-class", br_ok,
+           "for every BranchComponent table both columns of the class's from_to_node_cols() are listed", w)
+    run.ob("node-element-column", nd_ok,
+           "for every NodeElementComponent table the column `junction` is listed", w)
     run.floor(4)
 
 
